@@ -11,7 +11,7 @@ The hypothesis of C18_de_ser (starknet_keccak injective on SERDE_SUPPORTED_LONG_
 the list observed from the code (hyp_000.v).
 Impl-level oracle (always on): felt round trip, class extract, byte-identical re-serialization of
 the repo's contract classes, compress round trip, and - explored, not proved - text round trip /
-display fix-point and serde_json round trip."""
+display fix-point, serde_json round trip, CASM equality across id spellings and round trips."""
 import json
 import os
 import re
@@ -216,9 +216,12 @@ def run(ctx):
         "input_distribution": {k: v for k, v in summary.items() if k != "boundary_lossy"},
         "explored_not_proved": "text round trip (parse . display, display fix-point) and serde_json round "
                                "trip of VersionedProgram are checked on the implementation only "
-                               "(oracle_checks legs text-roundtrip, json-roundtrip); CASM equality of "
-                               "round-tripped / id-replaced programs is not checked by this property's "
-                               "harness",
+                               "(oracle_checks legs text-corpus-parse, text-roundtrip, json-roundtrip); "
+                               "CASM equality (leg casm-equality) is checked on the repo's stand-alone "
+                               "Sierra programs only: casm(as parsed, hashed ids) = casm(canonical numeric "
+                               "ids) = casm(debug names stripped) = casm(felt252 round trip) = casm(text "
+                               "round trip), with the harness's own renumbering - the compiler's "
+                               "replace_ids / CanonicalReplacer (cairo-lang-sierra-generator) are not linked",
         "correspondence_disagreements": len(corr_bad),
         "oracle_failures": len(oracle_bad),
         "boundary_lossy_labels": sorted({b.get("label", "?") for b in summary.get("boundary_lossy", [])}),
@@ -233,7 +236,8 @@ def run(ctx):
         "Exploration (not proof): the hand model is compared with the implementation on the same inputs "
         "(compress, decompress incl. malformed vectors, sierra_to_felt252s incl. refused/lossy boundary "
         "programs, sierra_from_felt252s incl. mutated serializations), and an impl-level oracle checks "
-        "the felt, class, text and JSON round trips on corpus and generated programs.",
+        "the felt, class, text and JSON round trips on corpus and generated programs and CASM equality on "
+        "the repo's stand-alone Sierra programs.",
         TRUSTED,
         "make -C coq/C18 && coqc Props/C18.v (Print Assumptions) ; harness/h18 -> coqc out/C18/cases/*.v",
     )
